@@ -275,3 +275,35 @@ func Nodes3(level int) []N3 {
 	}
 	return out
 }
+
+// Witness2 / Witness3 return the nodes with the given names from the deepest enumeration (level 2): the
+// quick tiers add the recorded witnesses of known findings that only the thorough enumeration contains.
+func Witness2(names ...string) []N2 {
+	want := map[string]bool{}
+	for _, n := range names {
+		want[n] = true
+	}
+	var out []N2
+	for _, n := range Nodes2(2) {
+		if want[n.Name] {
+			out = append(out, n)
+			delete(want, n.Name)
+		}
+	}
+	return out
+}
+
+func Witness3(names ...string) []N3 {
+	want := map[string]bool{}
+	for _, n := range names {
+		want[n] = true
+	}
+	var out []N3
+	for _, n := range Nodes3(2) {
+		if want[n.Name] {
+			out = append(out, n)
+			delete(want, n.Name)
+		}
+	}
+	return out
+}
